@@ -135,6 +135,7 @@ func buildPlan(co *corpus, thorough bool) []item {
 			add(item{Codec: ci, Seed: si, Family: "del", cost: int64(min(n, 400)) * per})
 			add(item{Codec: ci, Seed: si, Family: "ins", cost: int64(min(n, 400)) * 2 * per})
 			add(item{Codec: ci, Seed: si, Family: "tlvlen", cost: 300 * per})
+			add(item{Codec: ci, Seed: si, Family: "resize", cost: 2500 * per})
 			if prev >= 0 && n <= 2048 && len(cc.seeds[prev].full) <= 2048+2 {
 				add(item{Codec: ci, Seed: prev, Seed2: si, Family: "splice", cost: int64(n) * per})
 			}
@@ -371,6 +372,8 @@ func (w *worker) enumerate(it item, visit func(m func() bytemut.Mut, body []byte
 			buf = b
 			lazy(m, b)
 		}
+	case "resize":
+		w.res.ResizeTargets += int64(w.enumerateResize(c, s, visit))
 	case "splice":
 		o := cc.seeds[it.Seed2].full[pl:]
 		bytemut.Splices(body, o, lazy)
@@ -391,22 +394,23 @@ type violRec struct {
 }
 
 type itemResult struct {
-	Idx        int              `json:"idx"`
-	Evals      int64            `json:"evals"`
-	Accepted   int64            `json:"accepted"`
-	ShortAcc   int64            `json:"short_accepted"`
-	Outcomes   map[string]int64 `json:"outcomes"`
-	Viols      []violRec        `json:"viols,omitempty"`
-	AllocMax   uint64           `json:"alloc_max"`
-	AllocMaxAt string           `json:"alloc_max_at,omitempty"`
-	Precise    int64            `json:"precise"`
-	Rechecked  int64            `json:"rechecked"`
-	MaxReads   float64          `json:"max_reads_per_byte"`
-	Secs       float64          `json:"secs"`
-	FullChain  int64            `json:"full_chain"`
-	Triples    int64            `json:"triples"`
-	Oversize   int64            `json:"oversize_skipped"`
-	Samples    []any            `json:"samples,omitempty"`
+	Idx           int              `json:"idx"`
+	Evals         int64            `json:"evals"`
+	Accepted      int64            `json:"accepted"`
+	ShortAcc      int64            `json:"short_accepted"`
+	Outcomes      map[string]int64 `json:"outcomes"`
+	Viols         []violRec        `json:"viols,omitempty"`
+	AllocMax      uint64           `json:"alloc_max"`
+	AllocMaxAt    string           `json:"alloc_max_at,omitempty"`
+	Precise       int64            `json:"precise"`
+	Rechecked     int64            `json:"rechecked"`
+	MaxReads      float64          `json:"max_reads_per_byte"`
+	Secs          float64          `json:"secs"`
+	FullChain     int64            `json:"full_chain"`
+	Triples       int64            `json:"triples"`
+	ResizeTargets int64            `json:"resize_targets"`
+	Oversize      int64            `json:"oversize_skipped"`
+	Samples       []any            `json:"samples,omitempty"`
 }
 
 type replayCase struct {
@@ -996,31 +1000,33 @@ func (p *wproc) readProgress() (idx, ord int) {
 }
 
 type agg struct {
-	mu          sync.Mutex
-	evals       int64
-	accepted    int64
-	shortAcc    int64
-	outcomes    map[string]int64
-	perCodec    map[string][2]int64 // evals, accepted
-	allocMax    map[string]uint64   // plain / zlib
-	allocMaxAt  map[string]string
-	precise     int64
-	rechecked   int64
-	maxReads    float64
-	samples     []any
-	crashes     int
-	capsHit     []string
-	itemsDone   int
-	sigs        map[string]int
-	allocCodec  map[string]uint64
-	fullChain   int64
-	triples     int64
-	sweptFields int
-	sweptTypes  map[string]int
-	oversize    int64
-	sampleFams  map[string]int
-	secsFam     map[string]float64
-	secsCodec   map[string]float64
+	mu                         sync.Mutex
+	evals                      int64
+	accepted                   int64
+	shortAcc                   int64
+	outcomes                   map[string]int64
+	perCodec                   map[string][2]int64 // evals, accepted
+	allocMax                   map[string]uint64   // plain / zlib
+	allocMaxAt                 map[string]string
+	precise                    int64
+	rechecked                  int64
+	maxReads                   float64
+	samples                    []any
+	crashes                    int
+	capsHit                    []string
+	itemsDone                  int
+	sigs                       map[string]int
+	allocCodec                 map[string]uint64
+	fullChain                  int64
+	triples                    int64
+	sweptFields                int
+	resizeCases, resizeTargets int64
+	resizeSeeds                int
+	sweptTypes                 map[string]int
+	oversize                   int64
+	sampleFams                 map[string]int
+	secsFam                    map[string]float64
+	secsCodec                  map[string]float64
 }
 
 func TestC10Lnwire(t *testing.T) {
@@ -1330,6 +1336,9 @@ func TestC10Lnwire(t *testing.T) {
 		"lnwire_worker_deaths":                  a.crashes,
 		"lnwire_full_chain_evaluations":         int(a.fullChain),
 		"lnwire_field_sweep_triples":            int(a.triples),
+		"lnwire_resize_cases":                   int(a.resizeCases),
+		"lnwire_resize_targets":                 int(a.resizeTargets),
+		"lnwire_resize_seeds":                   a.resizeSeeds,
 		"lnwire_field_sweep_fields":             a.sweptFields,
 		"lnwire_field_sweep_fields_per_codec":   a.sweptTypes,
 		"lnwire_field_sweep_range":              fmt.Sprintf("[0,%d] + {2^k-1,2^k,2^k+1 : k<=width} + max (+ -1,-2,min for signed)", sweepUpto(thorough)),
@@ -1389,6 +1398,11 @@ func (a *agg) add(co *corpus, it item, r *itemResult, run *evid.Run) {
 	}
 	a.fullChain += r.FullChain
 	a.triples += r.Triples
+	if it.Family == "resize" {
+		a.resizeCases += r.Evals
+		a.resizeTargets += r.ResizeTargets
+		a.resizeSeeds++
+	}
 	if it.Family == "field" && r.Triples > 0 {
 		a.sweptFields++
 		a.sweptTypes[c.name]++
